@@ -5,7 +5,7 @@ for d in seeded/*/; do
   id=$(basename $d); p=${id%-*}
   if ! git -C /repo apply --check /verif/$d/patch.diff 2>/dev/null; then echo "$id: PATCH DOES NOT APPLY"; continue; fi
   git -C /repo apply /verif/$d/patch.diff
-  out=$(./check $p 2>&1 | grep "^VIOLATION" | head -1)
+  out=$(VERIF_SCRATCH_EVIDENCE=1 ./check $p 2>&1 | grep "^VIOLATION" | head -1)
   git -C /repo checkout -- .
   echo "$id: ${out:-NOT DETECTED}"
 done
